@@ -12,6 +12,7 @@ HARNESSES = {
     'mc_fsg': dict(src=['mc_fsg.c'], flavour='asan'),
     'mc_fe': dict(src=['mc_fe.c'], flavour='asan'),
     'mc_endpointer': dict(src=['mc_endpointer.c'], flavour='asan', ldflags=['-Wl,--wrap=vad_classify']),
+    'mc_numeric': dict(src=['mc_numeric.c'], flavour='ovf', ldflags=['-Wl,--wrap=acmod_score']),
 }
 
 TRUST = ['gcc 12 / AddressSanitizer / UBSan runtime', 'the reference model in the harness source',
@@ -301,6 +302,37 @@ def _c17_runs(tier):
     return r
 
 
+def _c18_runs(tier):
+    r = []
+    BATCH_ONLY = (2, 10)  # varnorm: the library refuses it in live mode (E_FATAL "not implemented")
+
+    def add(mode, cfg, l, n, scorer='ptm'):
+        for i in range(n):
+            r.append(dict(h='mc_numeric', label='numeric-%s-cfg%d-%s-len%d-shard%d' % (scorer, cfg, mode, l, i),
+                          args=['--mode', mode, '--cfg', str(cfg), '--len', str(l), '--scorer', scorer, '--shard', '%d/%d' % (i, n)]))
+    q = tier == 'quick'
+    add('stream', 0, 3 if q else 5, 4 if q else 16)
+    add('batch', 0, 3 if q else 4, 4 if q else 8)
+    add('float', 0, 2 if q else 3, 2 if q else 4)
+    add('float', 1, 1 if q else 2, 1)
+    for cfg in range(1, 12):
+        if cfg not in BATCH_ONLY:
+            add('stream', cfg, 2 if q else 3, 1 if q else 2)
+        add('batch', cfg, 2 if q else 3, 1 if q else 2)
+    for sc in ('semi', 'ms', 'mixw'):
+        add('stream', 0, 2 if q else 3, 1 if q else 2, sc)
+        add('batch', 0, 2 if q else 3, 1 if q else 2, sc)
+        for i in range(1 if q else 4):
+            r.append(dict(h='mc_numeric', label='numeric-%s-long-shard%d' % (sc, i),
+                          args=['--mode', 'long', '--scorer', sc, '--chains', '1' if q else '4', '--shard', '%d/%d' % (i, 1 if q else 4)]))
+    chains = [(0, 3 if q else 16)] + ([(1, 1), (4, 1)] if q else [(1, 4), (3, 4), (4, 4), (7, 4), (11, 4)])
+    for cfg, nl in chains:
+        for i in range(nl):
+            r.append(dict(h='mc_numeric', label='numeric-cfg%d-long-shard%d' % (cfg, i),
+                          args=['--mode', 'long', '--cfg', str(cfg), '--chains', str(nl), '--shard', '%d/%d' % (i, nl)]))
+    return r
+
+
 SES_ASSUME = ['operation alphabet of 42 public-API calls (see harness/mc_session.c); audio = excerpts of tests/data/goforward.raw, zeros, and no samples; '
               'REAL front end and REAL acoustic scorer (no injected scores)',
               'grammar loading, dictionary additions and reinit are only issued between utterances (the documented protocol); every other call is issued in every state',
@@ -443,6 +475,29 @@ CHECKS = {
         assumptions=['allocation requests above 256 MiB fail deterministically (ASan max_allocation_size_mb), as on a small machine',
                      'the feature_transform of tests/data does not fit the bundled models: it is only probed for safe rejection',
                      'mixture_weights files (models without a senone dump) are not bundled and not explored'] + TRUST,
+    ),
+    'C18': dict(
+        title='features and scores stay finite and within range for any audio',
+        level='exploration',
+        runs={'quick': _c18_runs('quick'), 'thorough': _c18_runs('thorough')},
+        budget_s={'quick': 600, 'thorough': 5400},
+        coverage=ex_cov,
+        rule='audio as a sequence of 10 ms frame types {zeros, +32767, -32768, full-scale Nyquist square, impulse, DC +1, white noise, speech '
+             'frame} (float input adds +-1e30 and a subnormal): ALL sequences up to length 3 (quick) / 5 (thorough) repeated to 60 frames, '
+             'streaming and batch, int16 and float entry, under 12 front-end configurations (noise removal, variance normalisation, DC removal '
+             '+ dither, no CMN, legacy/HTK transforms, filterbank shape, warping, down-sampled scoring; length 2 / 3 for the non-default ones); '
+             'plus 18000-frame (3 minute) chains of each type and of alternating pairs. Real front '
+             'end, real scorer computing all senones, loop grammar; the PTM scorer on the bundled model, and the semi-continuous, '
+             'general multi-stream and PTM-from-mixture-weights scorers on synthetic parameter files written by the harness. At EVERY scored frame: every feature component finite, every senone score '
+             'in [0,32767] with minimum 0; after the utterance: path and segment scores in (WORST_SCORE,0], normalisation state finite, its '
+             'text export re-imports to bit-identical floats and re-exports to the same text. Library built with signed-overflow and '
+             'float-cast-overflow traps. non-trivial = the utterance was scored to the end without a rejected call',
+        assumptions=['one bundled acoustic model (en-us) plus synthetic codebooks/mixture weights for the scorer modules it does not select; utterances up to 3 minutes',
+                     'for the semi-continuous module "normalised to zero" is checked where that module normalises: the best density of each '
+                     'stream (mgau_norm); it does not shift senone scores again, as in PocketSphinx',
+                     'variance normalisation only with whole-utterance processing: the library refuses it in live mode with E_FATAL ("not implemented")',
+                     'configurations that change the feature dimension (logspec, smoothspec, ncep) do not fit the bundled model and are not explored',
+                     'the frame alphabet is a choice of extreme waveforms, not all waveforms'] + TRUST,
     ),
     'C11': dict(
         title='the word lattice is a well-formed, time-consistent graph of grammar paths',
@@ -594,6 +649,11 @@ CHECKS = {
 PENDING_REASON = {}
 
 MANIFEST_TEXT = {
+    'C18': dict(
+        text='Bounded exhaustive enumeration of extreme-waveform frame sequences through the real front end, scorer and search, with the '
+             'range/finite oracle evaluated at the scoring seam on every frame and a bit-exact export/import oracle on the normalisation state.',
+        design_ref='DESIGN.md section 2, H12', technique='bounded exhaustive enumeration of frame-type sequences with a per-frame range oracle at the scoring seam and overflow-trapping build',
+        note='frame alphabet of 8 (11 for float) extreme waveforms; long chains to 18000 frames'),
     'C17': dict(
         text='Exhaustive fault enumeration over the stated fault model (all header/early truncations, all count-word corruptions, strided '
              'bulk truncations, missing file) executed on decoder_init with exact-size buffers under ASan/UBSan, followed each time by an '
